@@ -227,6 +227,14 @@ func genInbox(r *Rng, prop string, k int) *RunSpec {
 		if r.Intn(4) == 0 {
 			objs = append([]interface{}{mkNote(hostR, 9)}, objs...)
 		}
+		if r.Intn(4) == 0 {
+			// the Accept answers several Follows at once; somebody else's comes first
+			other := J{"type": "Follow", "id": "https://" + hostA + "/f/3", "actor": st.Carol.ID, "object": actorIDs}
+			if r.Bool() {
+				other = J{"type": "Follow", "id": "https://" + hostR + "/f/77", "actor": "https://" + hostR + "/u/zed", "object": actorIDs}
+			}
+			objs = append([]interface{}{other}, objs...)
+		}
 		f = J{"object": objs}
 	case "Add", "Remove":
 		var objs, tgts []interface{}
